@@ -1,5 +1,6 @@
 """C15 -- OpenMP conditional-compilation lines: parsed when enabled, comments otherwise."""
 import random
+import re
 
 import common
 import gen
@@ -119,6 +120,14 @@ def check_one(arg):
         fails.append(("disabled_rejected:" + rep["form"], "with handling disabled: %s line %s" % (off.kind, off.line), rep))
     elif fp.canon_repr(off.tree) != fp.canon_repr(refM.tree):
         fails.append(("disabled_tree_differs:" + rep["form"], "tree(sentinel(P,S), disabled) != tree(P minus S)", rep))
+    # handling disabled, comments kept, directive processing on: a sentinel line is an ordinary comment, not a directive
+    kd = fp.parse(src, std=std, rd=fp.reader(src, ignore_comments=False, free=not fixed, process_directives=True))
+    if kd.kind == "tree":
+        dirs = [str(n) for n in fp.utils.walk(kd.tree, fp.F3.Directive)]
+        bad = [t for t in dirs if re.match(r"^[!cC*]\$(\s|&|\d)", t)]
+        if bad:
+            fails.append(("sentinel_line_is_directive_node:" + rep["form"],
+                          "handling disabled, process_directives: sentinel lines became Directive nodes: %r" % bad[:3], rep))
     if not fixed:
         # genuine directives stay comments when handling is enabled and comments are kept
         k = fp.parse(src, std=std, rd=fp.reader(src, ignore_comments=False, free=True,
